@@ -60,7 +60,44 @@ def register(claim, na):
           "sentinel indices are guarded (R-GUARDSTORE, R-SENTINEL); compaction buffers are written at the counter "
           "(R-COMPACT); inventory of 122 compiled functions. Does not decide numerical agreement nor whether numba can type a "
           "function.", "DESIGN.md §4 C20")
-    for p in ["C01", "C02", "C03", "C04", "C06", "C08", "C09", "C10", "C11", "C12", "C13", "C18"]:
+    claim("C01", AST + ": Minkowski pairing, parallel-array stores, barycentric application, bit-mask remap tables "
+                       "(constant evaluation over all masks), plane/face agreement, loop exit discipline over _gjk_jolt.py",
+          "Decides structural necessary conditions of 'a in A, b in B, a - b = closest simplex point': support points are A-B "
+          "support points with the collider order kept (R-MINK); Y/P/Q rows are stored and compacted together from (p-q,p,q) "
+          "(R-PAR, R-COMPACT); closest points apply the weights of Y[0..k] to P[0..k] and Q[0..k] in order (R-BARY); sub-solver "
+          "masks map to the right vertex bits for all masks, returned masks name the vertices the point is built from, plane "
+          "tests guard their own face, Y[0..k-1] reach the k-point solver, candidates are adopted under strict < (R-BITMAP, "
+          "R-MASKPOINT, R-PLANES, R-SOLVERDISPATCH); loops have a progress/cap discipline (R-LOOP). Does not decide |a-b|=d "
+          "within 1e-5 L, optimality of d, or d>0 <=> separated.", "DESIGN.md §4 C01")
+    claim("C02", AST + ": Minkowski pairing, type-dispatch enumeration of the inflation (all ordered class pairs), decision-tree "
+                       "equality of the two Nesterov files, loop caps",
+          "Decides structural necessary conditions shared by the five boolean tests: R-MINK at every support site incl. "
+          "forwarded collider pairs and seeds; R-PAR for MPR/libccd; R-INFL (293 pair/side obligations: the radius is inflated "
+          "iff both supports are specialised and radius-free - a mismatch flips the Nesterov booleans by a full radius >> "
+          "delta); R-DISPATCH, R-DTREE, R-TUPLEROLE; exit discipline of all loops (R-LOOP; mpr._refine_portal is TOLERANCE, "
+          "termination not proved). Does not decide the delta band or agreement on concrete inputs.", "DESIGN.md §4 C02")
+    claim("C08", AST + " + by-construction sign/unit lattice over return paths (engine signs)",
+          "Decides: depth >= 0 and direction = unit-or-zero BY CONSTRUCTION on every return path of mpr_penetration and its "
+          "three helpers, zero vector on touching contact, depth/direction from the closest point of the portal face to the "
+          "origin, one weight vector for both pre-image arrays (R-UNITDIR); v/v1/v2 updated together (R-PAR); R-MINK; "
+          "_find_penetration_info/_discover_portal capped, _refine_portal TOLERANCE (R-LOOP). Does not decide residual "
+          "overlap <= 2e-3 L, the depth lower bound, or that the contact point lies in both shapes.", "DESIGN.md §4 C08")
+    claim("C09", AST + ": type-dispatch enumeration, writer/reader table agreement, decision-tree equality, tuple-role "
+                       "indexing, cofactor-table consistency",
+          "Decides: R-INFL over all ordered collider class pairs for both Nesterov variants; R-DISPATCH (type codes and data "
+          "slots); R-DTREE (13 region functions identical across the two files); R-TUPLEROLE (wrappers index the element named "
+          "after the quantity, distance clamped at 0, iteration helpers drive the same loop); R-JOHNSON/R-EXHAUSTIVE for the "
+          "original GJK's final answer; R-MINK; R-LOOP. Does not decide the 1e-3 L accuracy nor behaviour with "
+          "use_nesterov_acceleration=True beyond the loop cap.", "DESIGN.md §4 C09")
+    claim("C18", AST + ": bit-mask remap tables by constant evaluation, mask/point agreement, plane/face agreement, cofactor "
+                       "column <-> vertex subset table derived from the stores, exhaustive sub-simplex enumeration",
+          "Decides the combinatorial skeleton of both solvers: (Jolt) R-BITMAP, R-MASKPOINT, R-PLANES, R-SOLVERDISPATCH; "
+          "(original, backup procedure) every candidate uses the cofactor column of its own subset in vertex-list order, "
+          "guarded on that column, accepted under strict < (one documented tie rule), recording exactly its vertex list so "
+          "the returned weights reproduce the point from the reordered subset (R-JOHNSON, 116 obligations), all 3/7/15 "
+          "sub-simplices compared (R-EXHAUSTIVE). Does not decide the 1e-9 accuracy; the fast Johnson path is outside C18.",
+          "DESIGN.md §4 C18")
+    for p in ["C03", "C04", "C06", "C10", "C11", "C12", "C13"]:
         na(p, PENDING)
     na("C17", "volumes, positivity, partition and potentials are numerical facts about generated vertex data over continuous "
               "parameters; the only static part (combinatorics of literal tables) is too small a share of the statement to "
